@@ -468,7 +468,7 @@ def _robs(o):
 def correspond(ctx):
     reports = []
     # ---- (a) StreamReader
-    jobs = _reader_jobs(ctx, ctx.n(150, 1500))
+    jobs = _reader_jobs(ctx, ctx.n(150, 4000))
     res = V.run_jobs(jobs)
     cases, kinds = [], {}
     for j, r in zip(jobs, res):
@@ -491,7 +491,7 @@ def correspond(ctx):
     gen = Gen()
     rng = ctx.rng
     specs = []
-    per = ctx.n(36, 300)
+    per = ctx.n(36, 900)
     for kind in KINDS:
         for how in HOWS[kind]:
             for _ in range(max(1, per // len(HOWS[kind]))):
@@ -596,7 +596,7 @@ def search(ctx):
     gen = Gen()
     rng = ctx.rng
     extra = []
-    n = ctx.n(8, 120)
+    n = ctx.n(8, 400)
     for kind in KINDS:
         for _ in range(n):
             extra.append(make_spec(rng, gen, kind, ascii_only=(rng.random() < 0.5)))
